@@ -110,6 +110,8 @@ type paceRec struct {
 	Wait    time.Duration
 	Stall   time.Duration
 	Stop    bool
+	Workers int // worker goroutines in existence at the call
+	ResSent int // results handed to the consumer by then
 }
 
 type rtRec struct {
@@ -144,27 +146,29 @@ func (b *clockBody) Read(p []byte) (int, error) {
 func (b *clockBody) Close() error { return nil }
 
 type world struct {
-	id         string // property being checked: only its own oracles are evaluated (plus engine-level deadlock/panic)
-	p          params
-	began      time.Duration
-	jsonTgt    vegeta.Targeter
-	started    int
-	startT     []time.Duration
-	delivered  []*vegeta.Result
-	closes     int
-	stops      []bool
-	misuse     string
-	pace       []paceRec
-	rts        []*rtRec
-	resultsID  uintptr
-	attackerID string
-	inv        string
-	released   int // ticks the attacker has handed over (counted by the driver from the operations it applies)
-	lastSteps  int
-	preSpawn   int    // threads spawned before Attack was called (e.g. the DNS refresher): not goroutines "of the attack"
-	name       string // attack name
-	second     *world // the second attack on the same Attacker (p.Second)
-	parent     *world // set in the second attack's world: transport records live in the first
+	id           string // property being checked: only its own oracles are evaluated (plus engine-level deadlock/panic)
+	p            params
+	began        time.Duration
+	jsonTgt      vegeta.Targeter
+	started      int
+	startT       []time.Duration
+	delivered    []*vegeta.Result
+	closes       int
+	stops        []bool
+	misuse       string
+	pace         []paceRec
+	rts          []*rtRec
+	resultsID    uintptr
+	attackerID   string
+	inv          string
+	released     int // ticks the attacker has handed over (counted by the driver from the operations it applies)
+	lastSteps    int
+	resSent      int // results handed to the consumer (counted by the driver likewise)
+	lastStepsRes int
+	preSpawn     int    // threads spawned before Attack was called (e.g. the DNS refresher): not goroutines "of the attack"
+	name         string // attack name
+	second       *world // the second attack on the same Attacker (p.Second)
+	parent       *world // set in the second attack's world: transport records live in the first
 }
 
 type pacer struct{ w *world }
@@ -174,7 +178,7 @@ var stallAlphabet = []time.Duration{0, 3}
 
 func (pc pacer) Pace(elapsed time.Duration, hits uint64) (time.Duration, bool) {
 	w := pc.w
-	rec := paceRec{Elapsed: elapsed, Hits: hits, Clock: vsched.ClockPeek()}
+	rec := paceRec{Elapsed: elapsed, Hits: hits, Clock: vsched.ClockPeek(), Workers: w.workerCount(vsched.S), ResSent: w.resSent}
 	goes := 0
 	for _, r := range w.pace {
 		if !r.Stop {
@@ -369,6 +373,14 @@ func (w *world) main() {
 // invariant is evaluated by the driver after every transition.
 func (w *world) invariant(s *vsched.Sched) string {
 	n := len(w.delivered)
+	// count results handed over: completed operations on the results channel (one transition per rendezvous)
+	if w.resultsID != 0 && s.Steps != w.lastStepsRes {
+		w.lastStepsRes = s.Steps
+		l := s.Last
+		if (l.Kind == vsched.KSend || l.Kind == vsched.KRecv) && l.Obj == w.resultsID && l.Partner != nil {
+			w.resSent++
+		}
+	}
 	// count released hits: completed sends of the attacker goroutine (it only ever sends ticks)
 	if w.attackerID != "" && s.Steps != w.lastSteps {
 		w.lastSteps = s.Steps
@@ -544,6 +556,13 @@ func (w *world) end(s *vsched.Sched, r *vsched.Result) (string, string) {
 	for i, pr := range w.pace {
 		if pr.Hits != uint64(i) {
 			if v := fmt.Sprintf("C04: Pace call %d received hits=%d", i, pr.Hits); w.own(v) {
+				return v, outcome
+			}
+		}
+		// a worker takes its next tick only after it handed over the result of its previous hit: what has been
+		// released can never exceed the workers in existence plus the results handed over
+		if w.parent == nil && !p.Second && int(pr.Hits) > pr.Workers+pr.ResSent {
+			if v := fmt.Sprintf("C04: Pace call %d was told %d hits had been released, but with %d workers and %d results handed over at most %d can have been", i, pr.Hits, pr.Workers, pr.ResSent, pr.Workers+pr.ResSent); w.own(v) {
 				return v, outcome
 			}
 		}
